@@ -219,6 +219,17 @@ func init() {
 		add(&CLICase{What: "args", Src: good, Args: []string{"in.nas", ""}, WantExit: 17, Cell_: "argv2 empty-output-name"})
 		add(&CLICase{What: "args", Src: good, Args: []string{"", "out.bin"}, WantExit: 17, Cell_: "argv2 empty-source-name"})
 		add(&CLICase{What: "args", Src: good, Args: []string{"in.nas", "out.bin"}, Prefill: bytes.Repeat([]byte{0xaa}, 5000), WantExit: 0, Ref: goodImg, Cell_: "argv2 destination-prefilled"})
+		// the destination already holds something related to the new image: the same bytes, the image followed by a stale tail,
+		// the image twice, all but its last byte, one changed byte
+		flip := append([]byte{}, goodImg...)
+		flip[len(flip)/2] ^= 0xff
+		for _, pf := range []struct {
+			name string
+			pre  []byte
+		}{{"same-content", goodImg}, {"image-plus-stale-tail", append(append([]byte{}, goodImg...), []byte("STALE TAIL")...)},
+			{"image-twice", append(append([]byte{}, goodImg...), goodImg...)}, {"image-minus-last-byte", goodImg[:len(goodImg)-1]}, {"one-byte-differs", flip}, {"empty-file", []byte{}}} {
+			add(&CLICase{What: "args", Src: good, Args: []string{"in.nas", "out.bin"}, Prefill: pf.pre, WantExit: 0, Ref: goodImg, Cell_: "argv2 destination-holds " + pf.name})
+		}
 		add(&CLICase{What: "args", Src: good, Args: []string{"-d", "in.nas", "out.bin"}, WantExit: 0, Ref: goodImg, Cell_: "argv3 -d"})
 		add(&CLICase{What: "args", Args: []string{"-d"}, WantExit: 16, Cell_: "argv1 -d"})
 		add(&CLICase{What: "args", Src: good, Args: []string{"-d", "in.nas"}, WantExit: 16, Cell_: "argv2 -d source-only"})
